@@ -53,6 +53,21 @@ func treeString(ts []T) string {
 	return strings.Join(s, " ")
 }
 
+// c20Spy is a caller-defined data type (the datatype.Type interface is open): a leaf that runs f
+// when the library asks for its type.
+type c20Spy struct{ f func() }
+
+func (s *c20Spy) Serialize() []byte { return nil }
+func (s *c20Spy) Len() int          { return 0 }
+func (s *c20Spy) Padding() int      { return 0 }
+func (s *c20Spy) String() string    { return "spy" }
+func (s *c20Spy) Type() datatype.TypeID {
+	if s.f != nil {
+		s.f()
+	}
+	return datatype.UnknownType
+}
+
 func c20Build(t T) *diam.AVP {
 	switch t.K {
 	case 0:
@@ -247,6 +262,36 @@ func c20Eval(cs C20Case) (res string, queries int) {
 	if res != "" || len(m.AVP) == 0 {
 		return res, queries
 	}
+	// two path searches overlapping in time, after one that failed to resolve its path: the outer
+	// search meets (as its first candidate) an AVP whose data type, when asked for its Type(),
+	// runs a complete path search on ANOTHER message - standing for a second goroutine
+	if !cs.Priv {
+		other := diam.NewMessage(257, 0x80, 0, 1, 1, dict.Default)
+		other.AddAVP(c20Build(T{K: 3, Kids: []T{{K: 1}, {K: 0}}}))
+		for _, outer := range [][]uint32{{279, 264}, {279, 268}, {284, 264}, {279, 284, 268}} {
+			spy := &c20Spy{}
+			mm := diam.NewMessage(257, 0x80, 0, 1, 1, dict.Default)
+			mm.AddAVP(diam.NewAVP(outer[0], 0xC0, 4242, spy))
+			for _, t := range cs.Tree {
+				mm.AddAVP(c20Build(t))
+			}
+			_, _ = mm.FindAVPsWithPath([]interface{}{"No-Such-AVP-Name", uint32(264)}, 0) // fails to resolve
+			spy.f = func() {
+				spy.f = nil
+				_, _ = other.FindAVPsWithPath([]interface{}{uint32(284), uint32(268)}, 0)
+			}
+			var keys []interface{}
+			for _, c := range outer {
+				keys = append(keys, c)
+			}
+			got, err := mm.FindAVPsWithPath(keys, 0)
+			queries++
+			want := refPath(mm.AVP, outer)
+			if err != nil || !samePtrs(got, want) {
+				return fmt.Sprintf("FindAVPsWithPath(%v) overlapping with a path search on another message (after a search whose path did not resolve): %d AVPs (err %v), the strict per-level walk finds %d", outer, len(got), err, len(want)), queries
+			}
+		}
+	}
 	// search - edit - search: the message is edited in ways that do not go through Message.AddAVP /
 	// InsertAVP (a member added to the first group, the first top-level AVP cut out of the
 	// exported slice, the AVPs replaced by Marshal) and every query is asked again
@@ -351,7 +396,7 @@ func c20Enum(ctx *ev.Ctx, fn func(C20Case)) string {
 			}
 		}
 	}
-	return "all AVP trees over two leaf codes, two grouped codes and one leaf that carries the code of a Grouped AVP under a foreign vendor id (opaque data, not a group): every single node of nesting depth <=3 with inner width <=3 (outermost group: <=2 children quick, <=3 thorough), alone and next to a leaf in both orders; every ordered pair (and a family of triples) of depth-<=2 nodes; empty groups, repeated codes at several depths, groups in groups. Per tree: FindAVP and FindAVPs by uint32, int and name for every code of the alphabet, a defined but absent code, an undefined code and an undefined name; FindAVPsWithPath for every path of length <=3 over the alphabet plus the absent code, alternating number and name per step. Every tree is searched twice: in a message carrying dict.Default and in one carrying a private dictionary that names the four codes differently and attaches the default names to codes absent from the tree (a name must resolve through the message's own dictionary). After the first round of queries each message is edited without going through Message.AddAVP / InsertAVP (a member added to its first group, its first top-level AVP cut out of the exported slice, its AVPs replaced by Marshal) and every query is asked again. Results are compared by pointer identity with a pre-order reference walk / strict per-level match."
+	return "all AVP trees over two leaf codes, two grouped codes and one leaf that carries the code of a Grouped AVP under a foreign vendor id (opaque data, not a group): every single node of nesting depth <=3 with inner width <=3 (outermost group: <=2 children quick, <=3 thorough), alone and next to a leaf in both orders; every ordered pair (and a family of triples) of depth-<=2 nodes; empty groups, repeated codes at several depths, groups in groups. Per tree: FindAVP and FindAVPs by uint32, int and name for every code of the alphabet, a defined but absent code, an undefined code and an undefined name; FindAVPsWithPath for every path of length <=3 over the alphabet plus the absent code, alternating number and name per step. Every tree is searched twice: in a message carrying dict.Default and in one carrying a private dictionary that names the four codes differently and attaches the default names to codes absent from the tree (a name must resolve through the message's own dictionary). After the first round of queries each message is edited without going through Message.AddAVP / InsertAVP (a member added to its first group, its first top-level AVP cut out of the exported slice, its AVPs replaced by Marshal) and every query is asked again. Path searches are also made overlapping in time (a nested search on another message, started from inside the outer one through a caller-defined data type) after a search whose path did not resolve. Results are compared by pointer identity with a pre-order reference walk / strict per-level match."
 }
 
 func runC20(ctx *ev.Ctx) {
